@@ -40,7 +40,7 @@ pub struct Step {
     pub dts: u32,
     pub alt_pt: bool,
 }
-pub const STEPS: [Step; 8] = [
+pub const STEPS: [Step; 9] = [
     Step { name: "n", dseq: 1, dts: 160, alt_pt: false },                       // seq+1, ts+160
     Step { name: "g", dseq: 5, dts: 800, alt_pt: false },                       // seq+5 (gap)
     Step { name: "w", dseq: 65530, dts: 160, alt_pt: false },                   // seq wraps around
@@ -49,6 +49,9 @@ pub const STEPS: [Step; 8] = [
     Step { name: "e", dseq: 1, dts: DISCONTINUITY, alt_pt: false },             // largest continuous step
     Step { name: "E", dseq: 1, dts: DISCONTINUITY + 1, alt_pt: false },         // smallest discontinuity
     Step { name: "d", dseq: 1, dts: 160, alt_pt: true },                        // second PT on the same SSRC
+    // a late packet from before a jump: after "J" it lands 160 ticks after the pre-jump packet, and a
+    // following "J" lands 160 ticks after the first post-jump packet (same continuous segment)
+    Step { name: "L", dseq: 1, dts: 0u32.wrapping_sub(1_999_840), alt_pt: false },
 ];
 
 #[derive(Clone, Copy, PartialEq, Eq, Debug, Hash)]
@@ -423,11 +426,11 @@ pub fn run(rig: &mut Rig, table: &Table, opts: &Opts, hist: &[Letter], st: &mut 
             if discontinuity {
                 st.discontinuities += 1;
                 r.offset = diff;
-            } else if prev_mag > DISCONTINUITY {
-                // the step from the previous packet is itself larger than the threshold although
-                // the packet is within range of the newest in-order one: either reading accepted
+            } else if !in_order && prev_mag > DISCONTINUITY {
+                // a late packet from the far side of a discontinuity: the statement does not say
+                // which segment's offset it should carry, so any is accepted; the current
+                // segment's offset stays in force for the packets that follow
                 st.lenient += 1;
-                r.offset = diff;
             } else if diff != r.offset {
                 push(
                     "ts-delta",
